@@ -92,7 +92,7 @@ SC_STUB = [("sha2::sha512::compress512", "compress512_log_stub")]
 
 
 def h_generichash(name, mlen, outlen, keylen, call=None):
-    nblocks = (1 if keylen else 0) + max(1, (mlen + 127) // 128)
+    nblocks = max(1, ((128 if keylen else 0) + mlen + 127) // 128)     # keyed + empty message: the key block alone (and final)
     call = call or "let r = crypto_generichash(&mut out, &m, %s);" % ("Some(&key)" if keylen else "None")
     return rs.hdr(("barrier", "fmt", "b2compress")) + r'''
 fn %(name)s() {
@@ -248,7 +248,7 @@ def suites(tier, seed):
     for (mlen, outlen, klen) in b2:
         n = "c07_generichash_m%d_o%d_k%d" % (mlen, outlen, klen)
         src += h_generichash(n, mlen, outlen, klen)
-        hs.append(Harness(n, unwind=max(132, mlen + 10), timeout=2400, site="crypto_generichash",
+        hs.append(Harness(n, unwind=max(132, 2 * mlen + 12), timeout=2400, site="crypto_generichash",
                           desc="BLAKE2b driver: %d-byte message, %d-byte digest, %d-byte key (symbolic bytes): compress transcript == RFC 7693" % (mlen, outlen, klen),
                           bounds={"mlen": mlen, "outlen": outlen, "keylen": klen}))
     for (ol, kl) in ([(15, 0), (65, 0), (32, 15), (32, 65), (16, 16), (64, 64)] if tier == "quick" else [(0, 0), (1, 0), (15, 0), (65, 0), (80, 0), (32, 1), (32, 15), (32, 65), (16, 16), (64, 64), (16, 64)]):
